@@ -30,18 +30,22 @@ Poke(env, m) == LET a0 == Norm(Eval(m.a[1], env), AddrW) IN
    [env EXCEPT !.over = env.over \o [i \in 1..(m.w \div 8) |->
         <<Add(a0, FromNat(i - 1, AddrW), AddrW), 255 - MemByte(env, Zero(16), Add(a0, FromNat(i - 1, AddrW), AddrW))>>]]
 CellMatters(e, m, envs) == m.g = <<>> /\ \E j \in 1..Len(envs) : Eval(e, Poke(envs[j], m)) # Eval(e, envs[j])
-Reads(r) ==
-   IF r.exc # "" THEN <<[clause |-> "C16.exception", what |-> r.exc]>>
-   ELSE IF r.e.k = "aff" THEN
-        (IF Members(r.w) \ {[k |-> "none"]} # {r.e.a[1]} THEN <<[clause |-> "C16.writes.destination"]>> ELSE <<>>)
-   ELSE LET occ == IdOcc(r.e, FALSE)
-            missMR == {o \in occ : o[1] \notin Members(r.rmr) /\ IdMatters(r.e, o[1], r.envs)}
-            miss0 == {o \in occ : ~o[2] /\ o[1] \notin Members(r.r0) /\ IdMatters(r.e, o[1], r.envs)}
-            missC == {m \in MemNodes(r.e) : m \notin Members(r.rmr) /\ CellMatters(r.e, m, r.envs)}
+ReadsOf(e, r) ==
+        LET occ == IdOcc(e, FALSE)
+            missMR == {o \in occ : o[1] \notin Members(r.rmr) /\ IdMatters(e, o[1], r.envs)}
+            miss0 == {o \in occ : ~o[2] /\ o[1] \notin Members(r.r0) /\ IdMatters(e, o[1], r.envs)}
+            missC == {m \in MemNodes(e) : m \notin Members(r.rmr) /\ CellMatters(e, m, r.envs)}
         IN IF missMR # {} THEN <<[clause |-> "C16.reads.identifier", mode |-> "mem_read", missing |-> (CHOOSE o \in missMR : TRUE)[1]]>>
            ELSE IF miss0 # {} THEN <<[clause |-> "C16.reads.identifier", mode |-> "default", missing |-> (CHOOSE o \in miss0 : TRUE)[1]]>>
            ELSE IF missC # {} THEN <<[clause |-> "C16.reads.cell", mode |-> "mem_read", missing |-> CHOOSE m \in missC : TRUE]>>
            ELSE <<>>
+\* an assignment: its written set names the destination, and its read set is judged on the value it assigns (its source)
+Reads(r) ==
+   IF r.exc # "" THEN <<[clause |-> "C16.exception", what |-> r.exc]>>
+   ELSE IF r.e.k = "aff" THEN
+        (IF Members(r.w) \ {[k |-> "none"]} # {r.e.a[1]} THEN <<[clause |-> "C16.writes.destination"]>> ELSE <<>>)
+        \o ReadsOf(r.e.a[2], r)
+   ELSE ReadsOf(r.e, r)
 BindMap(r) == [i \in 1..Len(r.bind) |->
                  <<(CHOOSE wd \in Members(r.wild) : wd.n = r.bind[i][1]), r.bind[i][2]>>]
 Pat(r) ==
